@@ -2,7 +2,7 @@
 recorded observations -> CalcSem in trace mode (TLC is the judge) -> ACCEPT / DIVERGE per session.
 
 A session is {"id", "items": [AST | {"perr": True, "src": text}], "stdin": [str], "meta": any}."""
-import json, re, os
+import json, re, os, zlib
 import vlib
 from astlib import ps
 
@@ -132,14 +132,20 @@ def judge(sessions, cmp=("value",), mode="used", maxsteps=60000, trace=False, ti
     return [verdicts[s["id"]] for s in sessions]
 
 
+THEOREM_SAMPLE = {"quick": 120, "thorough": 600}    # sessions per call on which CalcSem's own action properties are checked
+THEOREM_MAXSTEPS = 3000
+
+
 def judge_recorded(tlc_in, maxsteps=60000, timeout=3000, ck=None, part=None):
-    """CalcSem in trace mode on sessions that already carry their recorded observations: {id: (accept|diverge, payload)}"""
+    """CalcSem in trace mode on sessions that already carry their recorded observations: {id: (accept|diverge, payload)}.
+    The verdict run checks the state invariants; the action properties (theorems of the semantics itself, five to eight
+    times the cost per step) are checked by a second run on a bounded sample of the accepted sessions."""
     out = {}
+    base = "SPECIFICATION Spec\nCONSTANT SessionsFile = \"sessions.ndjson\"\nCONSTANT MaxSteps = %d\nVIEW View\nINVARIANT NoResidue\nINVARIANT SpecSane\n%sCHECK_DEADLOCK FALSE\n"
     for b in range(0, len(tlc_in), BATCH):
         batch = tlc_in[b:b + BATCH]
         data = "\n".join(json.dumps(t) for t in batch) + "\n"
-        cfg = "SPECIFICATION Spec\nCONSTANT SessionsFile = \"sessions.ndjson\"\nCONSTANT MaxSteps = %d\nVIEW View\nINVARIANT NoResidue\nINVARIANT SpecSane\nPROPERTIES GlobalsOnlyAtTopLevel FrameOnlyByOwner OutputOnlyGrows\nCHECK_DEADLOCK FALSE\n" % maxsteps
-        r = vlib.run_tlc("CalcSem", "SemRun.cfg", files={"sessions.ndjson": data, "SemRun.cfg": cfg}, timeout=timeout)
+        r = vlib.run_tlc("CalcSem", "SemRun.cfg", files={"sessions.ndjson": data, "SemRun.cfg": base % (maxsteps, "")}, timeout=timeout)
         if r.violation:
             raise vlib.Infra("CalcSem's own invariant failed (specification defect, not a verdict): " + r.violation + "\n" + r.raw[-1500:])
         if ck is not None:
@@ -151,6 +157,18 @@ def judge_recorded(tlc_in, maxsteps=60000, timeout=3000, ck=None, part=None):
             elif line.startswith("DIVERGE "):
                 d = json.loads(line[8:])
                 out[d["id"]] = ("diverge", d)
+    k = THEOREM_SAMPLE.get(os.environ.get("VERIF_TIER", "quick"), 120)
+    cand = [t for t in tlc_in if out.get(t["id"], ("", {}))[0] == "accept" and out[t["id"]][1].get("steps", 0) <= THEOREM_MAXSTEPS]
+    cand.sort(key=lambda t: zlib.crc32(repr((t["id"], vlib.seed())).encode()))
+    sample = cand[:k]
+    if sample:
+        data = "\n".join(json.dumps(t) for t in sample) + "\n"
+        r = vlib.run_tlc("CalcSem", "SemRun.cfg", files={"sessions.ndjson": data, "SemRun.cfg": base % (
+            maxsteps, "PROPERTIES GlobalsOnlyAtTopLevel FrameOnlyByOwner OutputOnlyGrows\n")}, timeout=timeout)
+        if r.violation:
+            raise vlib.Infra("a theorem of CalcSem failed (specification defect, not a verdict): " + r.violation + "\n" + r.raw[-1500:])
+        if ck is not None and part:
+            ck.part(part, theorem_sessions=len(sample) + ck.cov["parts"].get(part, {}).get("theorem_sessions", 0))
     return out
 
 
